@@ -431,6 +431,36 @@ pub fn run_real_timer(out: &mut Out, cfg: &Cfg, slow: usize) {
             }
         }
     }
+    // a query that was prepared (built, base node made) before another query timed out must be answered
+    // in full by solve_all() / solve() afterwards: every solve()/solve_all() call starts with a clear flag
+    if ok {
+        let mut kb = KnowledgeBase::new();
+        add_rules(&mut kb, vec![Rule{head: scomplex!(atom!("pp"), SInteger(1)), body: Goal::Nil}, Rule{head: scomplex!(atom!("pp"), SInteger(2)), body: Goal::Nil},
+                                Rule{head: scomplex!(atom!("qq"), logic_var!("$X")), body: Goal::ComplexGoal(scomplex!(atom!("pp"), logic_var!("$X")))}]);
+        for api in ['A', 'S'] {
+            start_query();
+            let qb = Rc::new(make_query(vec![atom!("pp"), logic_var!("$X")])); let snb = make_base_node(Rc::clone(&qb), &kb);
+            // the other query times out at its first count_rules() (the hook plays the timer thread)
+            let qa = Rc::new(Goal::ComplexGoal(scomplex!(atom!("qq"), Unifiable::LogicVar{id: 7, name: "$Y".into()})));
+            let sna = make_base_node(Rc::clone(&qa), &kb);
+            verif_arm(1);
+            let ra = solve_all(sna);
+            verif_arm(0);
+            out.cap.take();
+            let timed_out = ra.last().map(|x| x == TIMEOUT_MSG).unwrap_or(false);
+            let got: Vec<String> = if api == 'A' { solve_all(snb) } else { let mut v = vec![]; for _ in 0..4 { let a = solve(Rc::clone(&snb)); let stop = a == "No more." || a == TIMEOUT_MSG; v.push(a); if stop { break; } } v };
+            out.cap.take();
+            start_query();
+            out.stat("prepared_query_probes", 1);
+            let want: Vec<String> = if api == 'A' { vec!["$X = 1".into(), "$X = 2".into()] } else { vec!["$X = 1".into(), "$X = 2".into(), "No more.".into()] };
+            if !timed_out { ok = false; msg = "the verification hook did not make the first query time out (probe broken)".into(); break; }
+            if got != want {
+                ok = false;
+                msg = format!("a query prepared before another query timed out was then answered {:?} by {} (expected {:?}): the stop flag of the earlier query leaked into it", got, if api == 'A' { "solve_all()" } else { "solve()" }, want);
+                break;
+            }
+        }
+    }
     out.impl_line(id, "real");
     if cfg.want("C23") { out.oracle(id, "C23", ok, &msg); }
     if cfg.want("C22") { out.oracle(id, "C22", ok, &msg); }
